@@ -51,6 +51,9 @@ def check(run):
         (b1, v1), (b2, v2) = pv_bytes(out[2 * k]), pv_bytes(out[2 * k + 1])
         seqs.append([f"rln recover {hx(b1)} {hx(b2)}"])
         seqs.append([f"rln recover {hx(b2)} {hx(b1)}"])
+        if k % 5 == 0:
+            # readers that deliver the bytes in pieces (a socket, a chained reader): `Read::read` may return less than asked for
+            seqs.append([f"rln chunk {hex(rng.choice([1, 7, 100, 287, 288]))}", f"rln recover {hx(b1)} {hx(b2)}", "rln chunk 0x0"])
         if k % 3 == 0:
             # the messages in the shape verify_rln_proof takes them: with `signal_len<8> | signal` attached (one, the other, both);
             # the tail is not part of the shares and must not change the outcome
